@@ -284,6 +284,16 @@ package btree
 //@     invariant node == nil ==> node0 == nil && height == 0
 //@     decreases ite(node != nil, node.lvl + 1, 0)
 
+//@ -- Node.Size: number of nodes of the subtree (recursive count); returns normally, reads only
+//@ func Node.Size
+//@   requires node != nil ==> node.tr != nil && ShapeInv(node.tr)
+//@   decreases ite(node != nil, node.lvl + 1, 0)
+//@   modifies nothing
+//@   ensures [C15 C17 C18] result >= 0 && (node != nil ==> result >= 1)
+//@   loop 1:
+//@     invariant size >= 1 && 0 - 1 <= rangeindex && rangeindex < len(node.Children) && (len(node.Children) == 0 ==> rangeindex == 0 - 1)
+//@     decreases len(node.Children) - rangeindex
+
 //@ func Tree.Height
 //@   requires ShapeInv(tree)
 //@   modifies nothing
